@@ -212,7 +212,26 @@ impl Prop for C15 {
                 let mut c = Case::new(format!("int -({a}) [0 - var]"), "let a = vh_next_int()\nvh_emit_int(0 - a)");
                 c.inputs = vec![Input::Int(*a)];
                 cases.push(c);
-                exps.push(e);
+                exps.push(e.clone());
+                // chains of unary minus: every step is a checked negation, so -(-MIN) stops with the overflow error
+                let twice = match &e {
+                    Exp::Val(v) => model("-", 0, *v),
+                    other => other.clone(),
+                };
+                for (form, body) in [("-(-var)", "let a = vh_next_int()\nvh_emit_int(-(-a))"), ("- - var", "let a = vh_next_int()\nvh_emit_int(- - a)"), ("-(0 - var)", "let a = vh_next_int()\nvh_emit_int(-(0 - a))")] {
+                    let mut c = Case::new(format!("int -(-({a})) [{form}]"), body);
+                    c.inputs = vec![Input::Int(*a)];
+                    cases.push(c);
+                    exps.push(twice.clone());
+                }
+                let thrice = match &twice {
+                    Exp::Val(v) => model("-", 0, *v),
+                    other => other.clone(),
+                };
+                let mut c = Case::new(format!("int -(-(-({a}))) [var]"), "let a = vh_next_int()\nvh_emit_int(-(-(-a)))");
+                c.inputs = vec![Input::Int(*a)];
+                cases.push(c);
+                exps.push(thrice);
             }
         } else {
             let op = OPS[unit / fs.len()];
